@@ -128,6 +128,9 @@ def tupleGet {α : Type} (t : List α) (i : Int) : R α := pyGet t i
 /-- Python's order on pairs of integers (`(a, b) <= (c, d)`), the key order of `sorted(..., key=lambda v: (k1, k2))` -/
 def lexLe2 (a b : Int × Int) : Bool := decide (a.1 < b.1) || (decide (a.1 = b.1) && decide (a.2 ≤ b.2))
 
+/-- `b * n` for a bytes value: `n` copies (none for `n ≤ 0`) -/
+def bytesRepeat (b : List Nat) (n : Int) : List Nat := (List.replicate n.toNat b).flatten
+
 /-- `sum(xs)` -/
 def sum (xs : List Int) : Int := sumInts xs
 
